@@ -287,6 +287,10 @@ def build_optimizer(ds, torch, cfg, params, groups=None, **extra):
         for k, v in (g.get("overrides") or {}).items():
             if k == "precond":
                 d["preconditioner_config"] = build_precond(ds, v)
+            elif k == "grafting":
+                d["grafting_config"] = build_grafting(ds, v)
+            elif k == "preconditioner_dtype":
+                d["preconditioner_dtype"] = getattr(torch, v)
             else:
                 d[k] = tuple(v) if k == "betas" else v
         pg.append(d)
